@@ -124,6 +124,16 @@ theorem scalarOfBytes_padded (d : Nat) (h : d < secpN) : scalarOfBytes (paddedBi
   unfold scalarOfBytes
   rw [List.take_of_length_le (by omega), beNat_paddedBigBytes, Nat.mod_eq_of_lt h]
 
+/-- the value of a key blob of at most 32 bytes is read big-endian, i.e. as if it were padded with zeros ON THE LEFT:
+    PaddedBigBytes to any width n <= 32 (the zeros partly or fully stripped) gives the same scalar. -/
+theorem scalarOfBytes_padded_any (d n : Nat) (h : d < secpN) (hn : n ≤ 32) : scalarOfBytes (paddedBigBytes d n) = d := by
+  have hL := beBytes_length_le d 32 (Nat.lt_trans h secpN_lt)
+  have hl : (paddedBigBytes d n).length ≤ 32 := by
+    simp only [paddedBigBytes, List.length_append, List.length_replicate]
+    omega
+  unfold scalarOfBytes
+  rw [List.take_of_length_le hl, beNat_paddedBigBytes, Nat.mod_eq_of_lt h]
+
 theorem pad_beBytes_beNat (l : Bytes) :
     List.replicate (l.length - (beBytes (beNat l)).length) 0 ++ beBytes (beNat l) = l := by
   induction l with
